@@ -94,7 +94,9 @@ func classifyDump(dump string) (bool, string, string) {
 	var involved []gor
 	for _, g := range gs {
 		for _, f := range g.frames {
-			if inServerFile(f.file) {
+			// the harness goroutines that call Serve / Stop are involved even
+			// while they have no frame in nats_server.go (yet)
+			if inServerFile(f.file) || strings.HasPrefix(f.fn, "main.c20ServeGoroutine") || strings.HasPrefix(f.fn, "main.c20StopGoroutine") {
 				involved = append(involved, g)
 				break
 			}
